@@ -1,5 +1,7 @@
 import SciVerif.Lemmas.C18b
 import SciVerif.Lemmas.C18c
+import SciVerif.Lemmas.C18d
+import SciVerif.Lemmas.C18e
 
 /-!
 # C18 — DIP expressions compute unit-aware results under the documented priorities
@@ -18,7 +20,7 @@ theorem C18_tables :
     Generated.numClasses = [("log", "CustomOperatorLog"), ("log10", "CustomOperatorLog10"),
       ("logb", "CustomOperatorLogb"), ("exp", "CustomOperatorExp"), ("sqrt", "CustomOperatorSqrt"),
       ("powb", "CustomOperatorPowb"), ("sin", "CustomOperatorSin"), ("cos", "CustomOperatorCos"),
-      ("tan", "CustomOperatorTan"), ("par", "OperatorPar"), ("pow", "OperatorPow"),
+      ("tan", "CustomOperatorTan"), ("par", "OperatorPar"), ("pow", "CustomOperatorPow"),
       ("mul", "CustomOperatorMul"), ("truediv", "CustomOperatorTruediv"), ("add", "CustomOperatorAdd"),
       ("sub", "CustomOperatorSub")] ∧
     Generated.logClasses = [("par", "OperatorPar"), ("eq", "CustomEq"), ("ne", "CustomNe"),
@@ -37,25 +39,67 @@ theorem C18_tables :
 /-- **Numerical expressions, token level.**  For every number algebra, every atom valuation and
     every well-formed tree (`× ÷` bind tighter than `+ −`, equal priorities group left to right,
     parentheses and the documented functions nest arbitrarily), the real pass sequence — ARGS,
-    sign folding, `**`, `* /`, `+ -`, as regenerated from the code — applied to the tree's token
+    sign folding (a ` - ` / ` + ` in prefix position applies to the value after it), `**`, `* /`,
+    `+ -`, as regenerated from the code — applied to the tree's token
     list (parenthesised parts solved recursively by the same machine) returns exactly the tree
     value: each operator applied once to the values of its two sub-trees. -/
 theorem C18_numeric_partial (N : NumOps F) (av : A → QV F) (e : E A) (hw : e.WF numGrammar) :
     e.solve (numSem N) numKeys Generated.numSteps av =
-      some (e.eval (numSem N) (numBinSem N) (fun _ q => q) av) := by
+      some (e.eval (numSem N) (numBinSem N) (numPreSem N) av) := by
   simp [E.solve, num_tk N av e hw, num_finish N av e hw]
 
-/-- Full statement (string level): solving the *rendered text* of a well-formed tree — any number of
-    optional blanks — gives the tree value.  Proved above for the token list; the tokeniser half
-    (`solveStr` on `render e` produces `e.toks`) is checked by the driver on every generated tree
-    of every run ("tree" versus "model" result), not proved. -/
+/-- Full statement (string level): solving the *rendered text* of a well-formed tree — parentheses
+    and function calls included, any number of optional blanks — gives the tree value.  Proved: the
+    token level (`C18_numeric_partial`) and the string level for the parenthesis-free fragment
+    (`C18_numeric_flat_partial`).  Missing: the argument scanner of parenthesis-type operators
+    (depth counting, separators) with the recursive solves; for those trees the driver solves the
+    rendered text and the tree's token list on every generated tree of every run and compares
+    ("tree" versus "model" result).  A prefix sign must not be the first token inside parentheses:
+    the argument text is stripped before it is solved, so ` - ` is not seen there. -/
 def C18_numeric_statement : Prop :=
   ∀ (N : NumOps Rat) (atom : List Char → Option (QV Rat)) (e : E (List Char)) (b : List Nat),
     e.WF numGrammar →
     (∀ a, (atom a).isSome → atom (strip a) = atom a) →
-    let text := (render (fun k => ((Generated.numTable.find? (·.key == k)).map (·.sym)).getD []) false e b).1
+    let text := (render (symOf Generated.numTable) false e b).1
     solveStr (numSem N) Generated.numTable Generated.numSteps atom (text.length + 1) text =
-      some (.atom (e.eval (numSem N) (numBinSem N) (fun _ q => q) (fun a => (atom a).getD none)))
+      some (.atom (e.eval (numSem N) (numBinSem N) (numPreSem N) (fun a => (atom a).getD none)))
+
+/-- the same for the logical grammar (symbols padded with one mandatory blank) -/
+def C18_logical_statement : Prop :=
+  ∀ (C : CmpOps Rat) (atom : List Char → Option (LV Rat)) (e : E (List Char)) (b : List Nat),
+    e.WF logGrammar →
+    (∀ a, (atom a).isSome → atom (strip a) = atom a) →
+    let text := (render (symOf Generated.logTable) true e b).1
+    solveStr (logSem C) Generated.logTable Generated.logSteps atom (text.length + 1) text =
+      some (.atom (e.eval (logSem C) (logBinSem C) logPreSem (fun a => (atom a).getD .err)))
+
+/-- **Numerical expressions, string level, parenthesis-free fragment.**  The *text* of a flat
+    well-formed tree — atoms with any number of blanks around them, operator symbols from the
+    regenerated table, prefix signs — is tokenised by the real loop (first matching operator in
+    dict order, otherwise shift one character) into exactly the tree's tokens and therefore solved
+    to the tree value, provided no operator symbol starts inside an atom segment and each operator
+    symbol is the first table entry matching at its position (`QuietIn`, decidable for a concrete
+    text) and the atoms are accepted by the atom constructor.  Parentheses and function calls
+    (argument scanning with depth, recursive solves) are not covered: for them the tokeniser half
+    stays checked per run. -/
+theorem C18_numeric_flat_partial (N : NumOps F) (atom : List Char → Option (QV F))
+    (av : List Char → QV F) (e : E (List Char)) (fuel : Nat) (hf : e.Flat) (hw : e.WF numGrammar)
+    (hq : e.QuietIn Generated.numTable []) (ha : e.AtomsOK atom av) :
+    solveStr (numSem N) Generated.numTable Generated.numSteps atom (fuel + 1)
+        (e.flatText Generated.numTable) =
+      some (.atom (e.eval (numSem N) (numBinSem N) (numPreSem N) av)) := by
+  rw [solveStr_flat (numSem N) Generated.numTable Generated.numSteps atom fuel av (numEval N av) e hf hq ha]
+  exact num_machine N av e hw
+
+/-- The same for logical expressions (comparisons, `~`, `&&`, `||` without parentheses). -/
+theorem C18_logical_flat_partial (C : CmpOps F) (atom : List Char → Option (LV F))
+    (av : List Char → LV F) (e : E (List Char)) (fuel : Nat) (hf : e.Flat) (hw : e.WF logGrammar)
+    (hq : e.QuietIn Generated.logTable []) (ha : e.AtomsOK atom av) :
+    solveStr (logSem C) Generated.logTable Generated.logSteps atom (fuel + 1)
+        (e.flatText Generated.logTable) =
+      some (.atom (e.eval (logSem C) (logBinSem C) logPreSem av)) := by
+  rw [solveStr_flat (logSem C) Generated.logTable Generated.logSteps atom fuel av (logEval C av) e hf hq ha]
+  exact log_machine C av e hw
 
 /-- **Logical expressions, token level**: comparisons are evaluated first, then `~`, then `&&`,
     then `||` (each left to right), for every well-formed tree, on the regenerated tables. -/
@@ -63,6 +107,19 @@ theorem C18_logical_partial (C : CmpOps F) (av : A → LV F) (e : E A) (hw : e.W
     e.solve (logSem C) logKeys Generated.logSteps av =
       some (e.eval (logSem C) (logBinSem C) logPreSem av) := by
   simp [E.solve, log_tk C av e hw, log_finish C av e hw]
+
+/-- Signs: ` - a**b` is `(-a)**b` and `a -  - b**c` is `a - ((-b)**c)` — a sign is folded only in
+    prefix position, before the power step (the defect repaired in dfe61ea merged it into the
+    preceding binary operator). -/
+theorem C18_signs (N : NumOps F) (a b c : QV F) :
+    (E.bin "pow" (.pre "sub" (.lit a)) (.lit b)).solve (numSem N) numKeys Generated.numSteps id =
+      some (numBinSem N "pow" ((numSem N).neg a) b) ∧
+    (E.bin "sub" (.lit a) (.bin "pow" (.pre "sub" (.lit b)) (.lit c))).solve (numSem N) numKeys
+        Generated.numSteps id =
+      some (numBinSem N "sub" a (numBinSem N "pow" ((numSem N).neg b) c)) := by
+  constructor
+  · rw [C18_numeric_partial N id _ (by simp [E.WF, numGrammar, E.top])]; simp [E.eval, numPreSem]
+  · rw [C18_numeric_partial N id _ (by simp [E.WF, numGrammar, E.top])]; simp [E.eval, numPreSem]
 
 /-- Priorities made explicit on the smallest mixed trees (instances of the theorems above):
     `a + b * c = a + (b * c)`, `a - b - c = (a - b) - c`, `~ x == y && z || w = ((~(x == y)) && z) || w`. -/
@@ -102,7 +159,7 @@ theorem C18_numeric_dim_refuse (N : NumOps F) (l r : Quant F) (h : l.dims ≠ r.
 theorem C18_numeric_units {K : Type} [Field K] (av : A → QV K)
     (hav : ∀ a, Agrees (av a) ((av a).map (Quant.toSI (fieldOps K))))
     (e : E A) (he : e.Arith) :
-    Agrees (e.eval (numSem (fieldOps K)) (numBinSem (fieldOps K)) (fun _ q => q) av)
+    Agrees (e.eval (numSem (fieldOps K)) (numBinSem (fieldOps K)) (numPreSem (fieldOps K)) av)
       (evalSI (fieldOps K) (fun a => (av a).map (Quant.toSI (fieldOps K))) e) := by
   induction e with
   | lit a => exact hav a
@@ -172,29 +229,25 @@ theorem C18_numeric_units {K : Type} [Field K] (av : A → QV K)
 
 /-! ### templates -/
 
-/-- Full statement: scanning the rendering of `text | {{ref}[slice]:fmt}` pieces returns the pieces
-    (so the result is the concatenation of the texts and the formatted holes).  Not proved in
-    general; the driver checks it for every generated template on every run. -/
+/-- Full statement: the round trip below also for holes that carry a slice `[a:b,c]`
+    (needs the decimal rendering of the slice bounds); checked by the driver on every generated
+    template of every run, not proved. -/
 def C18_template_statement : Prop :=
-  ∀ (t : List Char), (∀ c ∈ t, c ≠ '{') →
-    scanTemplate (t.length + 1) t = t.map Piece.text
+  ∀ ps : List Piece, (∀ p ∈ ps, PieceOKS p) →
+    scanTemplate ((ps.flatMap renderPieceS).length + 1) (ps.flatMap renderPieceS) = ps
 
-/-- Text without an opening brace is copied character by character. -/
-theorem C18_template_partial (t : List Char) (h : ∀ c ∈ t, c ≠ '{') (fuel : Nat)
-    (hf : t.length < fuel) : scanTemplate fuel t = t.map Piece.text := by
-  induction t generalizing fuel with
-  | nil => cases fuel <;> simp [scanTemplate]
-  | cons c t ih =>
-    cases fuel with
-    | zero => simp at hf
-    | succ n =>
-      have hc : c ≠ '{' := h c (by simp)
-      simp only [scanTemplate, hc, if_false, List.map_cons]
-      rw [ih (fun d hd => h d (by simp [hd])) n (by simpa using hf)]
+/-- **Templates**: scanning the rendering of any sequence of text characters (other than `{`) and
+    holes `{{ref}fmt}` — `ref` any non-empty text without `}`, `fmt` absent or of the form
+    `:[0-9.]*[sdfeb]+` — returns exactly that sequence: every hole is found with its reference
+    and format, everything else is copied.  (The solver then concatenates the text and
+    `format(value, fmt)` / `str(value)` of the holes; `format`/`str` are parameters.) -/
+theorem C18_template_partial (ps : List Piece) (hp : ∀ p ∈ ps, PieceOK p) :
+    scanTemplate ((renderPieces ps).length + 1) (renderPieces ps) = ps :=
+  scan_render ps hp _ (by omega)
 
 /-! Non-vacuity: concrete well-formed trees / hypotheses. -/
-example : (E.bin "add" (.lit (1 : Nat)) (.bin "mul" (.lit 2) (.fn2 "powb" (.par (.bin "sub" (.lit 3) (.lit 4))) (.lit 2)))).WF
-    numGrammar := by simp [E.WF, numGrammar, E.top]
+example : (E.bin "add" (.lit (1 : Nat)) (.bin "mul" (.pre "sub" (.lit 2)) (.fn2 "powb" (.par (.bin "sub" (.lit 3)
+    (.bin "pow" (.lit 4) (.lit 5)))) (.lit 2)))).WF numGrammar := by simp [E.WF, numGrammar, E.top]
 example : (E.bin "or" (.lit (0 : Nat)) (.bin "and" (.pre "not" (.bin "le" (.lit 1) (.lit 2))) (.par (.lit 3)))).WF
     logGrammar := by simp [E.WF, logGrammar, E.top, isCmp]
 example : (E.bin "add" (.lit (0 : Nat)) (.par (.bin "truediv" (.lit 1) (.lit 2)))).Arith := by
@@ -202,5 +255,17 @@ example : (E.bin "add" (.lit (0 : Nat)) (.par (.bin "truediv" (.lit 1) (.lit 2))
 example : Agrees (some (⟨2, 100, [1]⟩ : Quant Rat)) ((some (⟨2, 100, [1]⟩ : Quant Rat)).map (Quant.toSI (fieldOps Rat))) :=
   ⟨by decide, rfl⟩
 example : ([1, 0] : Dims) ≠ [0, 1] := by decide
+/-- `"1 m  + 2 cm *  - 3"` satisfies the side conditions of the flat string-level theorem -/
+example : (E.bin "add" (.lit "1 m ".toList) (.bin "mul" (.lit "2 cm".toList) (.pre "sub" (.lit " 3".toList)))).QuietIn
+    Generated.numTable [] := by
+  refine ⟨⟨⟨"add", " + ".toList, false, 0⟩, by decide +kernel, rfl, by decide +kernel, rfl, by decide⟩,
+    ⟨by decide +kernel, quiet_of_all _ _ _ (by decide +kernel)⟩, ?_⟩
+  refine ⟨⟨⟨"mul", " * ".toList, false, 0⟩, by decide +kernel, rfl, by decide +kernel, rfl, by decide⟩,
+    ⟨by decide +kernel, quiet_of_all _ _ _ (by decide +kernel)⟩, ?_⟩
+  exact ⟨⟨⟨"sub", " - ".toList, false, 0⟩, by decide +kernel, rfl, by decide +kernel, rfl, by decide⟩,
+    ⟨by decide +kernel, quiet_of_all _ _ _ (by decide +kernel)⟩⟩
+example : PieceOK (.hole "?body.weight".toList none (some ":.3e".toList)) :=
+  ⟨by decide, by decide, rfl, fun f hf => by
+    cases hf; exact ⟨⟨".3".toList, "e".toList, rfl, by decide, by decide, by decide⟩⟩⟩
 
 end SciVerif.C18
